@@ -108,6 +108,10 @@ def mergeTop : Stack → Stack
 structure Env where
   p : GPat
   g : Graph
+  /-- which revision of `_match_node`'s output loop is restated: `true` (default) = the committed,
+  repaired code (`return self.fail(...)`, /repo 778bd07); `false` = the code before the repair
+  (`return False` without failing the match, finding C06-F1) — kept for the refutation witness. -/
+  fixF1 : Bool := true
   /-- `math.isclose(host, pattern, rel_tol, abs_tol)` — abstract here (C05 judges its use). -/
   close : Int → Int → Bool
 
@@ -265,14 +269,15 @@ def matchInputs (mv : VPat → Option ValueId → Stack → R) :
     if !r.1 then r else matchInputs mv rest r.2
 
 /-- the output-binding loop at the end of `_match_node` -/
-def bindOutputs (p : GPat) (np : NPId) (gouts : List ValueId) : List (Option String) → Nat → Stack → R
+def bindOutputs (fix : Bool) (p : GPat) (np : NPId) (gouts : List ValueId) :
+    List (Option String) → Nat → Stack → R
   | [], _, st => (true, st)
   | _ :: rest, i, st =>
     match gouts[i]? with
-    | none => (false, st)         -- `return False` without failing the match
+    | none => if fix then fail st else (false, st)   -- as found: `return False` without failing the match
     | some x =>
       let r := bindValue p st (.out np i) (some x)
-      if !r.1 then r else bindOutputs p np gouts rest (i + 1) r.2
+      if !r.1 then r else bindOutputs fix p np gouts rest (i + 1) r.2
 
 def nodeStep (E : Env) (mv : VPat → Option ValueId → Stack → R) (npid : NPId) (n : NodeId)
     (st : Stack) : R :=
@@ -287,7 +292,7 @@ def nodeStep (E : Env) (mv : VPat → Option ValueId → Stack → R) (npid : NP
       if gn.inputs.length > np.inputs.length && !np.allowOtherInputs then fail st1 else
       let r2 := matchInputs mv (zipPad gn.inputs np.inputs) st1
       if !r2.1 then r2 else
-      bindOutputs E.p npid gn.outputs np.outputs 0 r2.2
+      bindOutputs E.fixF1 E.p npid gn.outputs np.outputs 0 r2.2
     | _, _ => fail st
 
 /-- `_match_node`; the fuel bounds the nesting depth of node patterns (≤ number of nodes). -/
